@@ -231,6 +231,20 @@ pub fn base_seed() -> u64 {
     std::env::var("VERIF_SEED").ok().and_then(|s| s.trim().parse::<u64>().ok()).unwrap_or(1)
 }
 
+/// Second phase of a check run by another build of the simulator (AddressSanitizer): its evidence
+/// and replay files carry the phase name, the first phase merges its summary (`FPSIM_MERGE_PHASE`).
+pub fn phase() -> Option<String> {
+    std::env::var("FPSIM_PHASE").ok().filter(|s| !s.is_empty())
+}
+
+fn n_cases_capped(sc: &dyn Scenario, tier: Tier) -> u64 {
+    let n = sc.n_cases(tier);
+    match std::env::var("FPSIM_MAX_CASES").ok().and_then(|s| s.parse::<u64>().ok()) {
+        Some(m) => n.min(m.max(1)),
+        None => n,
+    }
+}
+
 fn prop_tag(p: &str) -> u64 {
     hash_bytes(p.as_bytes())
 }
@@ -242,7 +256,7 @@ pub fn run_shard(sc: &dyn Scenario, tier: Tier, seed: u64, shard: u64, nshards: 
     let mut ex = Executor::new(&wd);
     let mut rep = ShardReport::default();
     let mut keys: BTreeSet<u64> = BTreeSet::new();
-    let n = sc.n_cases(tier);
+    let n = n_cases_capped(sc, tier);
     let cap = std::env::var("FPSIM_TIME_CAP_S")
         .ok()
         .and_then(|s| s.parse::<u64>().ok())
@@ -304,7 +318,8 @@ fn write_replay(prop: &str, fail: &Fail, seed: u64, case: u64, from: Value, tria
         trial: trial.clone(),
     };
     let h = hash_bytes(format!("{}{}{}", fail.class, fail.site, case).as_bytes()) & 0xFFFF_FFFF;
-    let path = dir.join(format!("{prop}-{seed}-{case}-{h:08x}.json"));
+    let tag = phase().map(|p| format!("{p}-")).unwrap_or_default();
+    let path = dir.join(format!("{prop}-{tag}{seed}-{case}-{h:08x}.json"));
     let _ = std::fs::write(&path, serde_json::to_vec_pretty(&rf).unwrap_or_default());
     path.to_string_lossy().into_owned()
 }
@@ -354,7 +369,7 @@ pub fn run_check(sc: &dyn Scenario, tier: Tier) -> i32 {
         .ok()
         .and_then(|s| s.parse().ok())
         .unwrap_or_else(|| std::thread::available_parallelism().map(|n| n.get() as u64).unwrap_or(8).min(16));
-    let nshards = nshards.min(sc.n_cases(tier).max(1));
+    let nshards = nshards.min(n_cases_capped(sc, tier).max(1));
     let exe = std::env::current_exe().expect("current_exe");
     let outdir = WorkDir::new(&format!("{prop}-parent"));
     let mut children = Vec::new();
@@ -424,7 +439,22 @@ pub fn run_check(sc: &dyn Scenario, tier: Tier) -> i32 {
     }
     let distinct = keys.len() as u64;
     let runs_per_hour = if wall_s > 0.0 { total.acc.execs as f64 / wall_s * 3600.0 } else { 0.0 };
-    let evidence = json!({
+    let merged_phase: Option<Value> = std::env::var("FPSIM_MERGE_PHASE")
+        .ok()
+        .and_then(|p| std::fs::read(p).ok())
+        .and_then(|b| serde_json::from_slice::<Value>(&b).ok())
+        .map(|v| {
+            json!({
+                "what": v["phase_description"],
+                "evaluations": v["coverage"]["evaluations"],
+                "executions": v["coverage"]["executions"],
+                "distinct_nontrivial": v["coverage"]["distinct_nontrivial"],
+                "fault_kinds_fired": v["coverage"]["fault_kinds_fired"],
+                "violations": v["violations"],
+                "wall_s": v["wall_s"],
+            })
+        });
+    let mut evidence = json!({
         "property_id": prop,
         "tier": tier.name(),
         "seed": seed,
@@ -467,16 +497,26 @@ pub fn run_check(sc: &dyn Scenario, tier: Tier) -> i32 {
         "wall_s": wall_s,
         "violations": real.len(),
     });
+    if let Some(m) = merged_phase {
+        evidence["coverage"]["sanitizer_phase"] = m;
+    }
+    if let Some(ph) = phase() {
+        evidence["phase_description"] = json!(std::env::var("FPSIM_PHASE_DESCRIPTION").unwrap_or(ph));
+    }
     let evdir = verif_dir().join("evidence");
     let _ = std::fs::create_dir_all(&evdir);
-    let evpath = evdir.join(format!("{prop}.json"));
+    let evpath = match phase() {
+        Some(ph) => evdir.join(format!("{prop}.{ph}.json")),
+        None => evdir.join(format!("{prop}.json")),
+    };
     if let Err(e) = std::fs::write(&evpath, serde_json::to_vec_pretty(&evidence).unwrap()) {
         eprintln!("fpsim: cannot write evidence {}: {e}", evpath.display());
         return 2;
     }
     println!(
-        "{prop} {}: {} cases, {} executions, {} distinct non-trivial, {} traces, {} violations, {:.1}s",
+        "{prop} {}{}: {} cases, {} executions, {} distinct non-trivial, {} traces, {} violations, {:.1}s",
         tier.name(),
+        phase().map(|p| format!(" [{p} phase]")).unwrap_or_default(),
         total.evaluations,
         total.acc.execs,
         distinct,
